@@ -50,3 +50,9 @@ PROPS = {
         "design_ref": "DESIGN.md §4 C30",
     },
 }
+
+
+# C29 ("commitments bind contents") is decided by ledgersim on the evaluation/validation path; its SECOND engine is
+# catchupsim: blocks arriving through catchup, where only Service.fetchAndWrite's ContentsMatchHeader call ties a
+# downloaded payset to the certified header (seeded change C29-a lives there). scripts/props.py attaches this.
+SECOND = {"C29": dict(PROPS["C30"], engine="catchupsim", share=0.5)}
